@@ -613,6 +613,9 @@ func callBody(fn *ssa.Function, args []value, free []value) value {
 		}
 		panic(unsupported{"call into unmodelled package: " + fn.String()})
 	}
+	if fn.Pkg != nil && interpPkgs[fn.Pkg.Pkg.Path()] && !funcsSeen[fn] {
+		funcsSeen[fn] = true
+	}
 	rs.depth++
 	if rs.depth > cfg.MaxDepth {
 		panic(unwindFail{"call depth > " + fmt.Sprint(cfg.MaxDepth) + " in " + fn.String()})
